@@ -41,6 +41,9 @@ type Loop struct {
 	// Paused operators/pollers are not scheduled (slow participant / stalled node).
 	PausedOp   map[int]bool
 	PausedPoll map[int]bool
+	// AfterStep, when set, runs after every scheduler action (crash
+	// bookkeeping, restarts).
+	AfterStep func()
 }
 
 func NewLoop(w *World) *Loop {
@@ -108,6 +111,9 @@ func (l *Loop) Step() bool {
 	l.W.Steps++
 	l.W.Log.Add("step %s", acts[i].Name)
 	acts[i].Run()
+	if l.AfterStep != nil {
+		l.AfterStep()
+	}
 	return true
 }
 
@@ -124,6 +130,9 @@ func (l *Loop) RunUntil(cond func() bool, maxSteps int) bool {
 		if !l.Step() {
 			// nothing enabled: let time pass once, then give up if still nothing
 			l.W.Advance(time.Second)
+			if l.AfterStep != nil {
+				l.AfterStep()
+			}
 			if len(l.Enabled()) == 0 {
 				return cond()
 			}
@@ -151,6 +160,9 @@ func (l *Loop) Quiesce(maxRounds int) bool {
 			w.Steps++
 			w.Log.Add("q %s", a.Name)
 			a.Run()
+			if l.AfterStep != nil {
+				l.AfterStep()
+			}
 			if w.Failed() {
 				return false
 			}
